@@ -9,6 +9,7 @@ import numpy as np
 from mc import alphabets as A
 from mc.harness import Result, Sub, digest
 from mc.ref import boo as B
+from mc.ref import c09x as X
 from mc.ref.base import close, frac_tie_margin, maxdiff, mk_snaps, write_neighbor_file, write_weight_file
 
 ASSUMPTIONS = [
@@ -29,6 +30,13 @@ ASSUMPTIONS = [
     "bins holding a pair closer than 1e-9 to a bin edge are compared as intervals (gr) or skipped (gA)",
     "time_corr: equal timestep differences -> all time origins averaged, otherwise origin 0 only (F = 1 and unequal "
     "spacing); normalised to exactly 1.0 at lag 0; t = (step - step_0) dt",
+    "Nmax below the largest coordination number (scale slice only): read_neighbors documents Nmax as 'the maximum number of neighboring particles to "
+    "consider'; the first Nmax listed neighbours and their weights are used (weights normalised by the sum of the kept ones) - resolved towards the implementation",
+    "scale slice: inputs of 63..257 particles are compared with vectorised numpy references (mc/ref/c09x.py: the formulas of mc/ref/boo.py on flat bond "
+    "arrays, Legendre polynomials by Horner in extended precision from the exact rational coefficients; they agree with the exact loop references to 1e-14); "
+    "placements with a periodic fractional pair component within 1e-9 of a half-cell tie or a pair within 1e-9 of a bin edge are replaced by the next hash table; "
+    "library-written Voronoi weights may contain 0.000000 entries (faces below the 6-decimal output): accepted as long as the row sum is positive",
+    "call sequences: a call on an object that has served other calls must return what the same call returns on a fresh object (rtol 1e-12)",
     "tabulated crystal values (Steinhardt et al. 1983, Mickel et al. 2013, six decimals) compared at 1e-5; "
     "w-hat_4 of the icosahedron (q_4 = 0) is undefined and not compared",
 ]
@@ -179,8 +187,10 @@ def sij_rows(ret, F, n):
     return np.asarray(ret)
 
 
-def check_sij(R, sig, b, qs, nls, coarse, c, files, nmax):
-    """s_ij, padding, thresholded count (csv) and the text file for all frames.  qs: reference q (or Q) per frame."""
+def check_sij(R, sig, b, qs, nls, coarse, c, files, nmax, sijref=None):
+    """s_ij, padding, thresholded count (csv) and the text file for all frames.  qs: reference q (or Q) per frame.
+    sijref: reference s_ij routine (default the literal double loop; the scale slice passes the vectorised one)."""
+    sijref = sijref or B.ref_sij
     F, n = len(qs), qs[0].shape[0]
     csvf = "c09_sum.csv"
     txt = "c09_sij.dat" if files else None
@@ -203,7 +213,7 @@ def check_sij(R, sig, b, qs, nls, coarse, c, files, nmax):
         R.fail(f"s_ij has {arr.shape[1]} columns < 2 + max cn {maxcn}", sub="C09.sij", sig=dict(sg, clause="shape"))
         return 0
     for f in range(F):
-        sref, nrm = B.ref_sij(qs[f], nls[f])
+        sref, nrm = sijref(qs[f], nls[f])
         for i in range(n):
             row = arr[f * n + i]
             ni = len(nls[f][i])
@@ -306,8 +316,9 @@ def gen_w(tier, seed):
             yield mkcase(seed, 4, nl, l, "two", "tri", "generic")
 
 
-def check_w(R, sig, b, qs_by_mode, l, files=False):
+def check_w(R, sig, b, qs_by_mode, l, files=False, wref=None):
     """w_l and w-hat_l of every frame/particle for local and coarse-grained vectors."""
+    wref = wref or B.ref_w
     elem = 0
     outs = []
     for coarse, qs in qs_by_mode:
@@ -321,7 +332,7 @@ def check_w(R, sig, b, qs_by_mode, l, files=False):
             R.fail(f"w shape {w.shape}", sub="C09.w", sig=dict(sig, clause="shape", coarse=coarse))
             continue
         for f in range(F):
-            rw, rwc = B.ref_w(qs[f], l)
+            rw, rwc = wref(qs[f], l)
             nrm = np.sqrt((np.abs(qs[f]) ** 2).sum(axis=1))
             elem += 2 * n
             if not close(w[f], rw, rtol=1e-9, atol=1e-12):
@@ -727,6 +738,357 @@ def run_crystals(case):
     return R
 
 
+# ------------------------------------------------------------------------------------------ C09.scale
+# A scale slice enumerates SIZES (particles, frames), not value assignments: one fixed value pattern per size and pattern row.
+SCALE_N = {"quick": [64, 65, 130, 257], "thorough": [63, 64, 65, 127, 128, 129, 130, 255, 256, 257]}
+SCALE_F = {"quick": [65], "thorough": [64, 65, 129, 257]}
+SCALE_PAT = [
+    # harness-written ragged lists (cn 1..14, the maximum attained by the first / the last particle only)
+    {"p": "h1", "src": "harness", "maxat": "first", "cell": "orthy", "F": 1, "l": 6, "w": "none", "nmax": "tight", "ppp": [1, 1, 1], "steps": "even", "wl": True, "files": True},
+    {"p": "h2", "src": "harness", "maxat": "last", "cell": "trivar", "F": 3, "l": 4, "w": "ragged", "nmax": "above", "ppp": [1, 1, 1], "steps": "even", "wl": True},
+    {"p": "h3", "src": "harness", "maxat": "alt", "cell": "tri-", "F": 3, "l": 7, "w": "none", "nmax": "plus1", "ppp": [1, 0, 1], "steps": "uneven", "fine": True},
+    {"p": "h4", "src": "harness", "maxat": "last", "cell": "orthz", "F": 1, "l": 12, "w": "ragged", "nmax": "below", "ppp": [1, 1, 1], "steps": "even"},
+    {"p": "h5", "src": "harness", "maxat": "alt", "cell": "tri+", "F": 3, "l": 2, "w": "ragged", "nmax": "tight", "ppp": [0, 1, 1], "steps": "uneven"},
+    {"p": "h6", "src": "harness", "maxat": "first", "cell": "trivar", "F": 3, "l": 6, "w": "none", "nmax": "below", "ppp": [1, 1, 1], "steps": "even", "wl": True, "fine": True},
+    # lists (and face-area weights) written by the library's own routines, read back by an independent parser
+    {"p": "nn", "src": "nnearest", "arg": 12, "cell": "trivar", "F": 3, "l": 6, "w": "none", "nmax": "tight", "ppp": [1, 1, 1], "steps": "even"},
+    {"p": "cut", "src": "cutoff", "cell": "orthy", "F": 3, "l": 4, "w": "none", "nmax": "tight", "ppp": [1, 1, 1], "steps": "uneven"},
+    {"p": "vorw", "src": "voronoi", "arg": "weighted", "cell": "tri+", "F": 3, "l": 4, "w": "file", "nmax": "tight", "ppp": [1, 1, 1], "steps": "even"},
+    {"p": "vor", "src": "voronoi", "arg": "plain", "cell": "orthz", "F": 1, "l": 12, "w": "none", "nmax": "plus1", "ppp": [1, 1, 1], "steps": "even"},
+    # thorough only: the remaining degrees / masks on the same shapes
+    {"p": "h7", "src": "harness", "maxat": "last", "cell": "tri-", "F": 3, "l": 12, "w": "ragged", "nmax": "plus1", "ppp": [1, 1, 0], "steps": "even", "tier": "thorough"},
+    {"p": "h8", "src": "harness", "maxat": "first", "cell": "orthy", "F": 3, "l": 7, "w": "ragged", "nmax": "below", "ppp": [1, 1, 1], "steps": "uneven", "tier": "thorough"},
+    {"p": "nn1", "src": "nnearest", "arg": 1, "cell": "tri-", "F": 1, "l": 2, "w": "none", "nmax": "tight", "ppp": [1, 1, 1], "steps": "even", "tier": "thorough"},
+    {"p": "cut2", "src": "cutoff", "cell": "trivar", "F": 3, "l": 7, "w": "none", "nmax": "above", "ppp": [1, 1, 1], "steps": "even", "tier": "thorough"},
+]
+
+
+SCALE_DENSE = {"p": "dense", "src": "cutoff", "rc": "dense", "cell": "tri-", "F": 1, "l": 4, "w": "none", "nmax": "above", "ppp": [1, 1, 1], "steps": "even"}
+
+
+def gen_scale(tier, seed):
+    for N in SCALE_N[tier]:
+        for pat in SCALE_PAT:
+            if pat.get("tier", tier) != tier:
+                continue
+            yield dict(pat, N=N, seed=seed, kind="particles")
+    # particle ids with four digits in the text files
+    yield dict(SCALE_PAT[0], N=1000, seed=seed, kind="particles", wl=False)
+    # dense cutoff lists: 63..129+ neighbours per particle, thresholded counts above 127
+    yield dict(SCALE_DENSE, N=257, seed=seed, kind="particles")
+    if tier == "thorough":
+        yield dict(SCALE_DENSE, N=130, seed=seed, kind="particles", l=6, cell="orthy")
+    # long trajectories of few particles: the frame loop and the frame-by-frame file cursor
+    for F in SCALE_F[tier]:
+        for l, w, cell in ((4, "none", "trivar"), (6, "ragged", "orthy")):
+            yield {"p": "frames", "kind": "frames", "src": "harness", "maxat": "alt", "cell": cell, "F": F, "l": l, "w": w, "nmax": "tight",
+                   "ppp": [1, 1, 1], "steps": "even" if l == 4 else "uneven", "N": 16, "seed": seed}
+
+
+def small_lists(N, f):
+    """ragged lists for the many-frames slice (N = 16): coordination numbers 1..5 rotating with the frame"""
+    offs = [1, 2, 5, 7, 11]
+    return [[(i + o) % N for o in (offs[:1 + (i + f) % 5] if i % 2 else offs[:1 + (i + f) % 5][::-1])] for i in range(N)]
+
+
+def scale_inputs(case, d=3, tagp="c09"):
+    """Deterministic inputs of one scale case: cells, frames, steps and the bin width; None when no tie-free placement exists."""
+    from mc.ref import scale as SC
+
+    N, F, ppp = case["N"], case["F"], case["ppp"]
+    Hs = X.cells_for(N, d, case["cell"], F)
+    for tag in range(60):
+        frames = X.frames_for(case["seed"], N, d, Hs, f"{tagp}sc{N}{case['p']}t{tag}")
+        if min(X.tie_margin_allpairs(fr, H, ppp) for fr, H in zip(frames, Hs)) < 1e-9:
+            continue
+        for width in ((0.023, 0.021, 0.019) if case.get("fine") else (0.27, 0.31, 0.37)):  # fine: 93..170 bins (around 128)
+            if not any(SC.weighted_hist(fr, H, ppp, width)[2] for fr, H in zip(frames, Hs)):
+                break
+        else:
+            continue
+        steps = [500 + 100 * f for f in range(F)]
+        if case["steps"] == "uneven" and F >= 3:
+            steps[-1] += 200
+        return Hs, frames, steps, width
+    return None
+
+
+def scale_lists(case, snaps, frames, Hs, d=3, prefix="c09"):
+    """neighbour / weight files of the case.  Returns (nfile, wfile, nls, wts) with nls / wts as READ BACK by the independent
+    parser for library-written files; None when a library-written list leaves the documented domain (empty list, self)."""
+    N, F, ppp = case["N"], case["F"], case["ppp"]
+    src = case["src"]
+    nfile, wfile = f"{prefix}_sc_nb.dat", None
+    if src == "harness":
+        if case["kind"] == "frames":
+            nls = [small_lists(N, f) for f in range(F)]
+        else:
+            nls = [X.ragged_lists(N, f, {"first": "first", "last": "last", "alt": "first" if f % 2 == 0 else "last"}[case["maxat"]]) for f in range(F)]
+        write_neighbor_file(nfile, nls)
+        wts = None
+        if case["w"] == "ragged":
+            wts = [X.ragged_weights(nl, f, signed=(d == 2)) for f, nl in enumerate(nls)]
+            wfile = f"{prefix}_sc_w.dat"
+            write_weight_file(wfile, wts, header="id   cn   facearealist" if d == 3 else "id   cn   edgelengthlist")
+        return nfile, wfile, nls, wts
+    from PyMatterSim.neighbors.calculate_neighbors import Nnearests, cutoffneighbors
+    from PyMatterSim.neighbors.freud_neighbors import cal_neighbors
+
+    if src == "nnearest":
+        Nnearests(snaps, N=int(case["arg"]), ppp=np.array(ppp), fnfile=nfile)
+    elif src == "cutoff":
+        # cutoff just above the largest nearest-neighbour distance of the trajectory: every particle has >= 1 neighbour, lists are ragged
+        from mc.ref import scale as SC
+
+        rc = 0.0
+        for fr, H in zip(frames, Hs):
+            iu, ju, _, r = SC.pair_dist(fr, H, ppp)
+            nearest = np.full(N, np.inf)
+            np.minimum.at(nearest, iu, r)
+            np.minimum.at(nearest, ju, r)
+            rc = max(rc, float(nearest.max()))
+            if case.get("rc") == "dense":  # about half of the other particles (<= 135) inside the cutoff of particle 0
+                d0 = np.sort(np.concatenate((r[iu == 0], r[ju == 0])))
+                rc = float(d0[min(134, (N - 1) // 2)])
+        cutoffneighbors(snaps, r_cut=rc * 1.001, ppp=np.array(ppp), fnfile=nfile)
+    else:
+        cal_neighbors(snaps, f"{prefix}_sc_vor")
+        nfile = f"{prefix}_sc_vor.neighbor.dat"
+        if case["arg"] == "weighted":
+            wfile = f"{prefix}_sc_vor." + ("facearea" if d == 3 else "edgelength") + ".dat"
+    nls = X.parse_nfile(nfile, N, lambda x: int(x) - 1)
+    wts = X.parse_nfile(wfile, N, float) if wfile else None
+    if len(nls) != F or any(len(x) == 0 or i in x for fr in nls for i, x in enumerate(fr)):
+        return None
+    if wts is not None and any(sum(abs(v) for v in x) <= 0 for fr in wts for x in fr):
+        return None
+    return nfile, wfile, nls, wts
+
+
+def scale_nmax(case, nls):
+    maxcn = max(len(x) for nl in nls for x in nl)
+    return {"tight": maxcn, "plus1": maxcn + 1, "above": max(30, maxcn + 5), "below": max(1, maxcn - 3)}[case["nmax"]], maxcn
+
+
+def scale_sig(case):
+    N = case["N"]
+    return {"scale": True, "pattern": case["p"], "source": case["src"], "cell": case["cell"], "wmode": case["w"], "nmax": case["nmax"],
+            "masked": bool(0 in case["ppp"]), "size": "<=64" if N <= 64 else ("65-128" if N <= 128 else ">128"), "frames": min(case["F"], 4)}
+
+
+def scale_files(R, sig, b, F, N):
+    """optional output files of ql_Ql, spatial_corr and time_corr equal the returned values (text at the documented precision)"""
+    import pandas as pd
+
+    ql = b.ql_Ql(coarse_graining=True, outputfile="c09_sc_ql.dat")
+    back, txt = np.load("c09_sc_ql.dat.npy"), np.loadtxt("c09_sc_ql.dat", ndmin=2)
+    if not (np.array_equal(back, ql) and txt.shape == ql.shape and np.allclose(txt, ql, rtol=0, atol=0.5000001e-6)):
+        R.fail("ql_Ql output files differ from the returned array", sub="C09.ql", sig=dict(sig, clause="file"))
+    sp = b.spatial_corr(rdelta=0.27, outputfile="c09_sc_sp.csv")
+    tab = pd.read_csv("c09_sc_sp.csv")
+    if list(tab.columns) != list(sp.columns) or tab.shape != sp.shape or not np.allclose(tab.values, sp.values.astype(float), rtol=0, atol=0.5000001e-8):
+        R.fail("spatial_corr csv differs from the returned table beyond %.8f", sub="C09.spatial", sig=dict(sig, clause="file"))
+    tc = b.time_corr(dt=0.002, outputfile="c09_sc_tc.csv")
+    tab2 = pd.read_csv("c09_sc_tc.csv")
+    if list(tab2.columns) != list(tc.columns) or tab2.shape != tc.shape or not np.allclose(tab2.values, tc.values.astype(float), rtol=0, atol=0.5000001e-8):
+        R.fail("time_corr csv differs from the returned table beyond %.8f", sub="C09.time", sig=dict(sig, clause="file"))
+    for fn in ("c09_sc_ql.dat.npy", "c09_sc_ql.dat", "c09_sc_sp.csv", "c09_sc_tc.csv"):
+        os.remove(fn)
+    return ql.size + sp.size + tc.size
+
+
+def run_scale(case):
+    from PyMatterSim.static.boo import boo_3d
+
+    R = Result()
+    N, F, l, ppp = case["N"], case["F"], case["l"], case["ppp"]
+    sig = scale_sig(case)
+    inp = scale_inputs(case)
+    if inp is None:
+        return R.screen()
+    Hs, frames, steps, width = inp
+    snaps = mk_snaps([f.tolist() for f in frames], np.array(Hs), [1] * N, steps=steps)
+    before = [s.positions.copy() for s in snaps.snapshots]
+    lst = scale_lists(case, snaps, frames, Hs)
+    if lst is None:
+        return R.screen()
+    nfile, wfile, nls_file, wts_file = lst
+    nmax, maxcn = scale_nmax(case, nls_file)
+    # Nmax below the largest coordination number: the first Nmax listed neighbours (and their weights) are used
+    nls, wts = X.truncate(nls_file, wts_file, nmax)
+    b = boo_3d(snaps, l, nfile, weightsfile=wfile, ppp=np.array(ppp), Nmax=nmax)
+    qs, Qs = [], []
+    for f in range(F):
+        q, Q = X.ref_qlm(frames[f], Hs[f], ppp, nls[f], l, wts[f] if wts is not None else None)
+        qs.append(q)
+        Qs.append(Q)
+    qs, Qs = np.array(qs), np.array(Qs)
+    where = f"N={N} F={F} l={l} pattern {case['p']} (Nmax={nmax}, largest cn {maxcn})"
+    if b.smallqlm.shape != qs.shape or b.largeQlm.shape != Qs.shape:
+        R.fail(f"q_lm shape {b.smallqlm.shape} / {b.largeQlm.shape} != {qs.shape}: {where}", sub="C09.qlm", sig=dict(sig, clause="shape"))
+        return R
+    if not close(b.smallqlm, qs):
+        bad = np.argwhere(~np.isclose(b.smallqlm, qs, rtol=1e-9, atol=1e-11))[0]
+        R.fail(f"q_lm of frame {bad[0]} particle {bad[1]} (cn {len(nls[bad[0]][bad[1]])}) differs from the reference by {maxdiff(b.smallqlm, qs):.3e}: {where}",
+               sub="C09.weights" if wts is not None else "C09.qlm", sig=dict(sig, clause="qlm"))
+        return R
+    if not close(b.largeQlm, Qs):
+        bad = np.argwhere(~np.isclose(b.largeQlm, Qs, rtol=1e-9, atol=1e-11))[0]
+        R.fail(f"coarse-grained Q_lm of frame {bad[0]} particle {bad[1]} (cn {len(nls[bad[0]][bad[1]])}) differs by {maxdiff(b.largeQlm, Qs):.3e}: {where}",
+               sub="C09.coarse", sig=dict(sig, clause="Qlm"))
+        return R
+    el = 2 * qs.size
+    outs = []
+    for coarse, ser in ((False, qs), (True, Qs)):
+        got = b.ql_Ql(coarse_graining=coarse)
+        outs.append(got)
+        if got.shape != (F, N) or not close(got, X.ref_ql(ser, l)):
+            R.fail(f"{'Q_l' if coarse else 'q_l'} differs from sqrt(4pi/(2l+1) sum|q_lm|^2): {where}", sub="C09.ql", sig=dict(sig, clause="ql", coarse=coarse))
+        elif np.any(got < 0) or np.any(got > 1 + 1e-12):
+            R.fail(f"q_l outside [0, 1]: {where}", sub="C09.bounds", sig=dict(sig, clause="ql_bound", coarse=coarse))
+        el += got.size
+    el += check_sij(R, sig, b, list(qs), nls, False, 0.7, F == 1, nmax, sijref=X.ref_sij_flat)
+    # dense lists: with c = -1.5 every bond counts, so the thresholded count equals the coordination number (> 127)
+    el += check_sij(R, sig, b, list(Qs), nls, True, -1.5 if case["p"] == "dense" else -0.3, False, nmax, sijref=X.ref_sij_flat)
+    if case.get("files"):
+        el += scale_files(R, sig, b, F, N)
+    if case.get("wl"):
+        e2, _ = check_w(R, sig, b, ((bool(N % 2), list(Qs if N % 2 else qs)),), l, wref=X.ref_w)
+        el += e2
+    popl = 0
+    for coarse, ser in ((False, qs), (True, Qs)):
+        if case["kind"] == "frames" and coarse:
+            continue
+        ref = X.ref_spatial(frames, Hs, ppp, width, ser)
+        ref = {"r": ref["r"], "gr_lo": ref["gr"], "gr_hi": ref["gr"], "gA": ref["gA"], "amb": np.zeros(len(ref["r"]), bool)}
+        popl = max(popl, check_spatial(R, sig, b.spatial_corr(coarse_graining=coarse, rdelta=width), ref, coarse))
+        check_time(R, sig, b.time_corr(coarse_graining=coarse, dt=0.002), ser, steps, 0.002, coarse)
+        el += F + 2 * len(ref["r"])
+    for s_, p0 in zip(snaps.snapshots, before):
+        if not np.array_equal(s_.positions, p0):
+            R.fail("snapshot positions modified", sub="C09.qlm", sig=dict(sig, clause="input_modified"))
+    for fn in (nfile, wfile, "c09_sc_vor.overall.dat", "c09_sc_vor.facearea.dat", "c09_sc_vor.neighbor.dat"):
+        if fn and os.path.exists(fn):
+            os.remove(fn)
+    R.outcome(outs, nd=8)
+    cns = [len(x) for x in nls_file[0]]
+    R.nontrivial = bool(popl >= 2 and (len(set(cns)) >= 2 or case["src"] == "nnearest"))
+    R.elem = el
+    return R
+
+
+# ------------------------------------------------------------------------------------------ C09.sequence (E2 over call sequences)
+SEQ_LETTERS = [
+    ["ql", False], ["ql", True], ["sij", False, 0.7], ["sij", False, -0.5], ["sij", True, 0.3], ["sp", False, 0.5], ["sp", False, 0.3],
+    ["sp", True, 0.5], ["tc", False, 0.002], ["tc", False, 0.5], ["tc", True, 0.002], ["w", False], ["w", True],
+]
+SEQ_TOPO = [
+    [[1, 2, 3, 4], [0, 2], [0, 1, 3], [2], [0, 5, 1], [4]],
+    [[5], [2, 0], [3], [0, 4, 5, 1, 2], [1, 3], [0, 2]],
+    [[3, 1], [0], [1, 0, 3, 5], [2, 0], [5], [4, 0, 2]],
+]
+
+
+def gen_sequence(tier, seed):
+    roots = [(4, "none", "trivar"), (6, "two", "orth")] if tier == "quick" else [(4, "none", "trivar"), (6, "two", "orth"), (7, "two", "tri"), (4, "two", "tri2")]
+    for l, wmode, cell in roots:
+        for a in range(len(SEQ_LETTERS)):
+            yield {"l": l, "wmode": wmode, "cell": cell, "first": a, "depth": 2, "seed": seed}
+        if tier == "thorough":
+            for a in range(len(SEQ_LETTERS)):
+                if SEQ_LETTERS[a][0] != "w":
+                    yield {"l": l, "wmode": wmode, "cell": cell, "first": a, "depth": 3, "seed": seed}
+
+
+def seq_build(case, which=0):
+    """a fresh boo_3d object on fresh files (which = 1: the OTHER object that stays alive during the sequence - other degree, other
+    files, other configurations)"""
+    from PyMatterSim.static.boo import boo_3d
+
+    cell = case["cell"]
+    H = cell3("tri" if cell == "trivar" else cell)
+    Hc = [np.diag(np.diag(H)) + (H - np.diag(np.diag(H))) * (f if cell == "trivar" else 1.0) for f in (1.0, -1.0, 0.5)]
+    frames = [positions(case["seed"], 6, "cluster", Hc[f], tag=f"sq{which}{f}") for f in range(3)]
+    nls = [SEQ_TOPO[(f + which) % 3] for f in range(3)]
+    wmode = case["wmode"] if which == 0 else "three"
+    wts = None if wmode == "none" else [weights_for(nl, wmode) for nl in nls]
+    nf, wf = f"c09_sq{which}_nb.dat", f"c09_sq{which}_w.dat"
+    write_neighbor_file(nf, nls)
+    if wts is not None:
+        write_weight_file(wf, wts)
+    snaps = mk_snaps(frames, np.array(Hc), [1] * 6, steps=[500, 700, 900])
+    l = case["l"] if which == 0 else (6 if case["l"] != 6 else 4)
+    return boo_3d(snaps, l, nf, weightsfile=wf if wts is not None else None, ppp=np.array([1, 1, 1]), Nmax=5 + which), frames, Hc
+
+
+def seq_call(b, letter, tag="a"):
+    """one call of the alphabet; the result as a list of arrays (everything the call returns or writes)"""
+    import pandas as pd
+
+    kind, coarse = letter[0], letter[1]
+    if kind == "ql":
+        return [b.ql_Ql(coarse_graining=coarse)]
+    if kind == "sij":
+        csvf = f"c09_sq_{tag}.csv"
+        ret = b.sij_ql_Ql(coarse_graining=coarse, c=letter[2], outputqlQl=csvf)
+        tab = pd.read_csv(csvf).values.astype(float)
+        os.remove(csvf)
+        return [np.asarray(x, float) for x in ret] + [tab]
+    if kind == "sp":
+        return [b.spatial_corr(coarse_graining=coarse, rdelta=letter[2]).values.astype(float)]
+    if kind == "tc":
+        return [b.time_corr(coarse_graining=coarse, dt=letter[2]).values.astype(float)]
+    if kind == "w":
+        return [np.asarray(x) for x in b.w_W_cap(coarse_graining=coarse)]
+    raise ValueError(kind)
+
+
+def same(a, b):
+    return len(a) == len(b) and all(x.shape == y.shape and np.allclose(x, y, rtol=1e-12, atol=1e-14, equal_nan=True) for x, y in zip(a, b))
+
+
+def run_sequence(case):
+    """Explicit-state search over call sequences on ONE boo_3d object (state = sequence of calls made so far; every sequence starts from
+    a freshly built object): the result of every call must equal the result of the same call on a fresh object, whatever was called
+    before; a second object (other degree, files, configurations) stays alive meanwhile and must be unaffected."""
+    R = Result()
+    sig = {"l46": case["l"] in (4, 6), "wmode": case["wmode"], "cell": case["cell"]}
+    nL = len(SEQ_LETTERS)
+    depth = case["depth"]
+    allowed = [k for k in range(nL) if depth == 2 or SEQ_LETTERS[k][0] != "w"]
+    fresh = {}
+    for k in allowed:
+        fresh[k] = seq_call(seq_build(case)[0], SEQ_LETTERS[k], "f")
+    other, _, _ = seq_build(case, which=1)
+    other_ref = [seq_call(other, SEQ_LETTERS[k], "o") for k in (0, 4, 5)]
+    q0, Q0 = other.smallqlm.copy(), other.largeQlm.copy()
+    a = case["first"]
+    seqs = [(a, k) for k in allowed] if depth == 2 else [(a, k, m) for k in allowed for m in allowed]
+    states = transitions = 0
+    for seq in seqs:
+        b, _, _ = seq_build(case)
+        qb, Qb = b.smallqlm.copy(), b.largeQlm.copy()
+        states += 1
+        for pos_, k in enumerate(seq):
+            got = seq_call(b, SEQ_LETTERS[k], "s")
+            transitions += 1
+            if not same(got, fresh[k]):
+                prev = [SEQ_LETTERS[j] for j in seq[:pos_]]
+                R.fail(f"{SEQ_LETTERS[k]} after {prev} on the same object differs from the same call on a fresh object", sub="C09.sequence",
+                       sig=dict(sig, clause="call_" + SEQ_LETTERS[k][0], after=[SEQ_LETTERS[j][0] for j in seq[:pos_]]), exp=fresh[k][0], obs=got[0])
+                break
+        if not (np.array_equal(b.smallqlm, qb) and np.array_equal(b.largeQlm, Qb)):
+            R.fail(f"calls {[SEQ_LETTERS[j] for j in seq]} modified the stored q_lm / Q_lm", sub="C09.sequence", sig=dict(sig, clause="stored_modified"))
+    again = [seq_call(other, SEQ_LETTERS[k], "o") for k in (0, 4, 5)]
+    if not all(same(x, y) for x, y in zip(again, other_ref)) or not (np.array_equal(other.smallqlm, q0) and np.array_equal(other.largeQlm, Q0)):
+        R.fail("a second boo_3d object alive during the sequences changed its results", sub="C09.sequence", sig=dict(sig, clause="other_object"))
+    R.states, R.transitions = states, transitions
+    R.elem = transitions
+    R.outcome([case["first"], case["depth"]] + [x for x in fresh[case["first"]]], nd=8)
+    R.nontrivial = True
+    return R
+
+
 # ------------------------------------------------------------------------------------------
 def subs(tier, seed):
     q = tier == "quick"
@@ -759,4 +1121,20 @@ def subs(tier, seed):
                  "supercells (27-54 atoms, shifted across the boundary): q4,q6,w-hat4,w-hat6 of the central/every atom vs the tabulated values (1e-5) and "
                  "the reference; periodic: Q_l = q_l, all s_ij = 1" + ("" if q else "; other l = 2..12 vs reference"),
             bounds={"crystals": 6}),
+        Sub("C09.scale", gen_scale, run_scale,
+            rule="SIZE slice (enumerates sizes, ONE fixed value pattern per size and pattern row): N in " + str(SCALE_N[tier]) + " particles x "
+                 + str(len([p for p in SCALE_PAT if p.get("tier", tier) == tier])) + " pattern rows = ragged harness lists (cn 1..14, the maximum attained by the first / the last particle only, "
+                 "a particle with one neighbour, id 0 as a genuine neighbour, unsorted) and lists / face-area weights written by the library's N-nearest, cutoff and Voronoi routines x "
+                 "l in {2,4,6,7,12} x weights per frame x Nmax {= max cn, +1, 30, max cn - 3 (truncation to the first Nmax entries)} x cells {orthogonal with shortest edge y / z, triclinic "
+                 "of either tilt sign, tilt factors changing per frame} x partial masks x F in {1,3} (positions, topology, weights, tilts change per frame; even / uneven steps); "
+                 "plus F in " + str(SCALE_F[tier]) + " frames of 16 particles; every entry of q_lm, Q_lm, q_l, Q_l, s_ij + thresholded counts (c = 0.7, -0.3), w_l / w-hat_l (l in {4,6} rows), "
+                 "spatial_corr, time_corr vs vectorised references (mc/ref/c09x.py); non-trivial = ragged lists and >= 2 populated gA bins",
+            bounds={"N": SCALE_N[tier], "F": SCALE_F[tier], "max_cn": 14}),
+        Sub("C09.sequence", gen_sequence, run_sequence,
+            rule="explicit-state search over call sequences on ONE boo_3d object (6 particles, 3 frames with changing topology / tilts): alphabet of 13 calls = ql_Ql x {local, coarse}, "
+                 "sij_ql_Ql x {(local, 0.7), (local, -0.5), (coarse, 0.3)}, spatial_corr x {(local, 0.5), (local, 0.3), (coarse, 0.5)}, time_corr x {(local, dt 0.002), (local, 0.5), "
+                 "(coarse, 0.002)}, w_W_cap x {local, coarse}; all 169 ordered pairs" + ("" if q else " and all 1331 triples of the 11 calls without w_W_cap")
+                 + " per root; every result must equal the same call on a fresh object, the stored q_lm / Q_lm must stay unchanged, and a second live object (other l, files, "
+                 "configurations) must be unaffected",
+            bounds={"letters": 13, "depth": 2 if q else 3}),
     ]
